@@ -10,6 +10,10 @@ import Proofs.Lemmas.AccessKnown
 import Proofs.Lemmas.Inst
 import Proofs.Lemmas.AccessPos
 import Proofs.Lemmas.AccessNamed
+import Model.DeclMods
+import Spec.DeclMods
+import Generated.C07Decl
+import Proofs.Lemmas.DeclMods
 /-!
 # C07 — visibility and declared types are enforced at every access path and boundary
 
@@ -1129,6 +1133,165 @@ example : callNamed .eachChecked false (fun _ _ => false) [⟨0, .exact, .int, n
     [.named 7 (.val .int)] = .unresolved (.unknown 7) := by decide
 
 end NamedArguments
+
+/-! ## Which modifier a member carries: the keywords in front of its declaration
+
+Everything above is about the modifier a member CARRIES. Which one it carries is decided by the parser from the
+keywords written in front of the declaration (`Model.DeclMods`): a sequence of keyword stages, each keyword branch
+assigning some of the variables that are later handed to the node constructor. The stage lists and the assignments
+of every branch are regenerated from the six places that read declaration keywords (`Generated.C07Decl.parsers`).
+The theorems are about EVERY parser of that shape whose branches assign their own variable (`wf`), every list of
+keywords of any length; the regenerated parsers are held to `wf` by `decide` below. -/
+section DeclarationKeywords
+open Model.DeclMods Spec.DeclMods Proofs.DeclMods
+
+/-- **C07_modifiers_resolved_as_written.** Whatever spelling a well-formed parser accepts, the member carries
+exactly what is written: the written visibility wherever it stands among the other keywords, the default only when
+no visibility keyword occurs, and each flag iff its keyword occurs. -/
+theorem C07_modifiers_resolved_as_written (p : Parser) (hw : wf p = true) (kws : List Kw) (m : Mods)
+    (h : parse p kws = some m) : Resolved p.init kws m := by
+  rw [parse_fold hw h]
+  exact fold_resolved _ _
+
+/-- **C07_modifier_order_irrelevant.** Two accepted spellings of the same keywords (any permutation, at most one
+visibility written) give the member the same modifiers. -/
+theorem C07_modifier_order_irrelevant (p : Parser) (hw : wf p = true) (k1 k2 : List Kw) (m1 m2 : Mods)
+    (hp : k1.Perm k2) (ho : VisOnce k1) (h1 : parse p k1 = some m1) (h2 : parse p k2 = some m2) : m1 = m2 :=
+  resolved_unique (fun _ => hp.mem_iff) ho
+    (C07_modifiers_resolved_as_written p hw k1 m1 h1) (C07_modifiers_resolved_as_written p hw k2 m2 h2)
+
+/-- **C07_explicit_visibility_preserved.** A written visibility is the one the member carries, whatever other
+keywords stand before or after it. -/
+theorem C07_explicit_visibility_preserved (p : Parser) (hw : wf p = true) (kws : List Kw) (m : Mods)
+    (h : parse p kws = some m) (v : Mod) (hv : Kw.vis v ∈ kws) (ho : VisOnce kws) : m.vis = some v :=
+  (C07_modifiers_resolved_as_written p hw kws m h).explicit v hv ho
+
+/-- **C07_default_visibility_only_without_keyword.** The parser's default (`public` for class members) is what the
+member carries exactly when no visibility keyword is written: a carried visibility is either written, or nothing
+is written and it is the default. -/
+theorem C07_default_visibility_only_without_keyword (p : Parser) (hw : wf p = true) (kws : List Kw) (m : Mods)
+    (h : parse p kws = some m) (ho : VisOnce kws) :
+    ((∀ v, Kw.vis v ∉ kws) → m.vis = p.init.vis) ∧
+    (∀ v, m.vis = some v → Kw.vis v ∈ kws ∨ ((∀ w, Kw.vis w ∉ kws) ∧ p.init.vis = some v)) := by
+  have r := C07_modifiers_resolved_as_written p hw kws m h
+  refine ⟨r.default, ?_⟩
+  intro v hv
+  by_cases hex : ∃ w, Kw.vis w ∈ kws
+  · obtain ⟨w, hw'⟩ := hex
+    have := r.explicit w hw' ho
+    rw [hv] at this
+    cases this
+    exact .inl hw'
+  · have hn : ∀ w, Kw.vis w ∉ kws := fun w hw' => hex ⟨w, hw'⟩
+    refine .inr ⟨hn, ?_⟩
+    rw [← r.default hn, hv]
+
+theorem parse_loop (p : Parser) (bs : List Branch) (hs : p.stages = [⟨true, bs⟩])
+    (hx : p.finalXorAbstract = false) (k : List Kw) :
+    parse p k = if (runRep bs k p.init).2 = [] then some (runRep bs k p.init).1 else none := by
+  unfold parse
+  rw [hs, hx]
+  simp [runStages, runStage]
+
+/-- **C07_keyword_loop_order_irrelevant.** A parser that reads the keywords in ONE loop (the loop in front of a
+constructor parameter) treats every permutation alike: all are refused, or all are accepted with the same modifiers. -/
+theorem C07_keyword_loop_order_irrelevant (p : Parser) (hw : wf p = true) (bs : List Branch)
+    (hs : p.stages = [⟨true, bs⟩]) (hx : p.finalXorAbstract = false) (k1 k2 : List Kw)
+    (hp : k1.Perm k2) (ho : VisOnce k1) : parse p k1 = parse p k2 := by
+  by_cases hall : ∀ k ∈ k1, (findBranch bs k).isSome = true
+  · have hall2 : ∀ k ∈ k2, (findBranch bs k).isSome = true := fun k hk => hall k (hp.mem_iff.mpr hk)
+    have e1 := (runRep_rest_nil bs k1 p.init).mpr hall
+    have e2 := (runRep_rest_nil bs k2 p.init).mpr hall2
+    have a1 : parse p k1 = some (runRep bs k1 p.init).1 := by rw [parse_loop p bs hs hx, if_pos e1]
+    have a2 : parse p k2 = some (runRep bs k2 p.init).1 := by rw [parse_loop p bs hs hx, if_pos e2]
+    rw [a1, a2, C07_modifier_order_irrelevant p hw k1 k2 _ _ hp ho a1 a2]
+  · have hall2 : ¬ ∀ k ∈ k2, (findBranch bs k).isSome = true := fun h => hall (fun k hk => h k (hp.mem_iff.mp hk))
+    have e1 : ¬ (runRep bs k1 p.init).2 = [] := fun e => hall ((runRep_rest_nil bs k1 p.init).mp e)
+    have e2 : ¬ (runRep bs k2 p.init).2 = [] := fun e => hall2 ((runRep_rest_nil bs k2 p.init).mp e)
+    rw [parse_loop p bs hs hx, parse_loop p bs hs hx, if_neg e1, if_neg e2]
+
+/-- **C07_written_visibility_enforced.** End to end: a member written with visibility `v` among any other
+keywords, in any order the parser accepts, is usable through an access path that applies the lexical rule exactly
+from the code PHP's rule allows for `v` — the composition of the declaration parser and `C07_lexical_exact`. -/
+theorem C07_written_visibility_enforced (p : Parser) (hw : wf p = true) (kws : List Kw) (m : Mods)
+    (h : parse p kws = some m) (v : Mod) (hv : Kw.vis v ∈ kws) (ho : VisOnce kws)
+    (T : Table) (H : Hier) (s : Site) (hd : NoDangling H) (nc : Bool)
+    (hm : m.vis = some s.m)
+    (hT : T s.path s.recv = .lexical true true nc) (hc : nc = true → s.ctx.isSome)
+    (hns : Model.Access.decide T H s ≠ .stuck) :
+    Model.Access.decide T H s = .allowed ↔ allowed H v s.lex s.decl := by
+  have e := C07_explicit_visibility_preserved p hw kws m h v hv ho
+  rw [hm] at e
+  cases e
+  exact C07_lexical_exact T H s hd nc hT hc hns
+
+/-- **C07_foreign_visibility_assignment_counterexample.** The parameter loop of the change
+`C07-promoted-readonly-public-override` (the `readonly` branch also assigns `paramModifier = "public"`):
+`private readonly int $a` is promoted to a PUBLIC property, `readonly private int $a` to a private one — the written
+visibility is not preserved and the order of the keywords matters. The harness replays it as
+`leak:propRead:priv:outside` on a member spelled `private readonly`. -/
+theorem C07_foreign_visibility_assignment_counterexample :
+    parse seededParam [.vis .priv, .flag .readonly] = some ⟨some .pub, false, true, false, false, false⟩ ∧
+    parse seededParam [.flag .readonly, .vis .priv] = some ⟨some .priv, false, true, false, false, false⟩ ∧
+    wf seededParam = false ∧
+    ¬ (∀ k1 k2 m1 m2, k1.Perm k2 → VisOnce k1 → parse seededParam k1 = some m1 →
+        parse seededParam k2 = some m2 → m1 = m2) := by
+  refine ⟨by decide, by decide, by decide, ?_⟩
+  intro hall
+  have hp : [Kw.vis .priv, Kw.flag .readonly].Perm [Kw.flag .readonly, Kw.vis .priv] := List.Perm.swap _ _ _
+  have ho : VisOnce [Kw.vis .priv, Kw.flag .readonly] := by
+    intro v w hv hw
+    simp at hv hw
+    rw [hv, hw]
+  have := hall _ _ ⟨some .pub, false, true, false, false, false⟩ ⟨some .priv, false, true, false, false, false⟩
+    hp ho (by decide) (by decide)
+  exact absurd this (by decide)
+
+/-- every keyword branch of the six regenerated parsers assigns its own variable and nothing else (a visibility
+keyword the visibility it names, every other keyword its flag) -/
+theorem C07_declaration_keywords_own_variable : Generated.C07Decl.parsers.all wf = true := by decide
+
+/-- in particular no branch of a keyword that is not a visibility keyword assigns the visibility variable -/
+theorem C07_no_keyword_assigns_foreign_visibility :
+    (Generated.C07Decl.parsers.all fun p => p.stages.all fun st => st.branches.all fun b => !foreignVis b) = true := by
+  decide
+
+/-- the six parsers were read completely in the shapes the translator knows, the variables are not assigned
+outside a keyword branch, and the member parsers hand the modifier to the node constructor unchanged -/
+theorem C07_declaration_stages_recognised :
+    Generated.C07Decl.recognised = [("param", true), ("class", true), ("anon", true), ("trait", true),
+      ("enum", true), ("interface", true)] ∧
+    Generated.C07Decl.passThrough = [("property", true), ("method", true), ("interfaceMethod", true)] := by decide
+
+/-- what a member carries when no visibility keyword is written: `public` in a class, an anonymous class, a trait
+and an enum; a constructor parameter without a visibility keyword is not promoted; an interface member gets its
+`public` in the member parser (`passThrough`) -/
+theorem C07_declaration_defaults :
+    Generated.C07Decl.parsers.map (fun p => (p.name, p.init.vis)) =
+      [("param", none), ("class", some .pub), ("anon", some .pub), ("trait", some .pub), ("enum", some .pub),
+       ("interface", none)] := by decide
+
+/-- **C07_generated_modifiers_resolved.** For the parsers as regenerated on this run: whatever spelling is
+accepted, the member carries what is written. -/
+theorem C07_generated_modifiers_resolved (p : Parser) (hp : p ∈ Generated.C07Decl.parsers) (kws : List Kw)
+    (m : Mods) (h : parse p kws = some m) : Resolved p.init kws m :=
+  C07_modifiers_resolved_as_written p (List.all_eq_true.mp C07_declaration_keywords_own_variable p hp) kws m h
+
+-- `final protected static function f()`: accepted, protected + static + final
+example : parse pinnedClass [.flag .final, .vis .prot, .flag .static] = some ⟨some .prot, true, false, true, false, false⟩ := by decide
+-- `protected final static …`: the same member
+example : parse pinnedClass [.vis .prot, .flag .final, .flag .static] = some ⟨some .prot, true, false, true, false, false⟩ := by decide
+-- `static private $x`: refused by the member loop (an over-refusal, not a leak)
+example : parse pinnedClass [.flag .static, .vis .priv] = none := by decide
+-- the parameter loop takes both orders and resolves them alike
+example : parse pinnedParam [.vis .priv, .flag .readonly] = parse pinnedParam [.flag .readonly, .vis .priv] := by decide
+example : wf pinnedParam = true ∧ wf pinnedClass = true := by decide
+example : VisOnce [Kw.vis .priv, Kw.flag .readonly, Kw.vis .priv] := by
+  intro v w hv hw
+  simp at hv hw
+  rw [hv, hw]
+
+end DeclarationKeywords
 
 /-- **C07_known_tightened.** The known tables shrank: no arm and no boundary is known worse than before the
 second round of repairs, 23 of the 38 arms and 9 of the 14 boundaries are known strictly better. -/
